@@ -14,7 +14,7 @@ from .core import AnalysisError, Source
 
 class Edit:
     def __init__(self, name: str, file: str, old: str, new: str, expect: Optional[str] = None, nth: Optional[int] = None,
-                 regex: bool = False) -> None:
+                 regex: bool = False, every: bool = False) -> None:
         self.name = name
         self.file = file
         self.old = old
@@ -22,8 +22,11 @@ class Edit:
         self.expect = expect
         self.nth = nth
         self.regex = regex
+        self.every = every
 
     def apply(self, text: str) -> Optional[str]:
+        if self.every:
+            return text.replace(self.old, self.new) if self.old in text else None
         if self.regex:
             ms = list(re.finditer(self.old, text, flags=re.S))
             if not ms:
